@@ -5,9 +5,9 @@ namespace IwModel.Json
 open IwModel
 
 /-- assumed behaviour of the opaque number formatter (`iwjson_ftoa` behind `_jbl_write_double`): it writes some
-    JSON number token `N b`, in ASCII (runtime gap: checked by the tie only) -/
+    JSON number token `N b` for every finite double, in ASCII (proved for the model of `iwjson_ftoa`: `ftoa_fmtSpec`) -/
 def FmtSpec (fmt : Nat → Bytes) (N : Nat → Cst) : Prop :=
-  ∀ b, (N b).text = fmt b ∧ (N b).valid = true ∧ (N b).depth = 0 ∧ (∀ x ∈ fmt b, x < 128)
+  ∀ b, finiteBits b = true → (N b).text = fmt b ∧ (N b).valid = true ∧ (N b).depth = 0 ∧ (∀ x ∈ fmt b, x < 128)
 
 def ascii (t : Bytes) : Prop := ∀ b ∈ t, b < 128
 
@@ -141,9 +141,10 @@ mutual
       simp only [printable, Bool.and_eq_true, decide_eq_true_eq] at hp
       obtain ⟨h1, h2, h3, h4⟩ := writeInt_cst (D := D) i hp
       exact ⟨_, h1, h2, by rw [h3]; rfl, rfl, fun _ => h4⟩
-    | .f64 b, lvl, t, _, h => by
+    | .f64 b, lvl, t, hp, h => by
       simp only [printNode, Except.ok.injEq] at h; subst h
-      obtain ⟨h1, h2, h3, h4⟩ := hf b
+      simp only [printable] at hp
+      obtain ⟨h1, h2, h3, h4⟩ := hf b hp
       exact ⟨N b, h1, h2, rfl, by rw [h3]; rfl, fun _ => h4⟩
     | .str s, lvl, t, hp, h => by
       rw [printNode] at h
